@@ -638,7 +638,7 @@ class Evaluator:
 PLUGIN_PURE = {
     "ISA2REG": ("ext", "HexOp*"), "ALIAS2OP": ("ext", "HexOp"), "EXPLICIT2OP": ("ext", "HexOp"),
     "NREG2OP": ("ext", "HexOp"), "ISA2IMM": "cint", "HEX_STORE_SLOT_CANCELLED": "effect",
-    "HEX_GET_NPC": bv(32), "HEX_GET_INSN_RMODE": ("ext", "rmode"),
+    "HEX_GET_NPC": "effect", "HEX_GET_INSN_RMODE": ("ext", "rmode"),
 }
 
 
